@@ -12,7 +12,9 @@
         never released inside one (`Tie.lock_counts_ok`, re-extracted on every run);
     (b) the peer's out-of-lock actions on a popped waiter being invisible to everybody but that
         waiter (`c03_finalize_local`, `c03_claimed_invisible` below; ownership by removal:
-        `Struct.nodup`, `listed`, `unlisted`), and ordered (C07);
+        `Struct.nodup`, `listed`, `unlisted`), and ordered (C07); and the window itself adding no
+        behaviour: the final store is a left mover (`c03_final_store_moves_left`), so every
+        execution is equivalent to one whose hand-offs are single atomic steps (`c03_reduction`);
     (c) the correspondence check: for small multi-threaded programs the per-thread results the
         real crate produces under many controlled schedules must be in the model's outcome set
         over all interleavings of its atomic steps (`specexplore`) — the linearizability oracle.
@@ -22,6 +24,7 @@
 import Kanal.Lemmas.All
 import Kanal.Props.C18
 import Kanal.Tie
+import Kanal.Lemmas.Mover
 
 namespace Kanal.C03
 open Kanal Chan State
@@ -100,11 +103,48 @@ theorem c03_claimed_invisible (s : State) (h : Reach Variant.good s) (i : Nat) (
         unfold cancel; simp [hni]
       simp [this] at e; exact e.symm
 
+/-- **C03 (the hand-off window adds no behaviour: left mover).** While waiter `i` is claimed, the peer's
+    final store commutes to the left of every step that is not one of `i`'s own: if some other call's step `l`
+    happens inside the window and then the final store, the final store could have happened first, with the
+    same result for `l` and the same state afterwards (up to the order of the wake log, which no step reads:
+    `step_congr_wakes`). -/
+theorem c03_final_store_moves_left (s : State) (h : Reach Variant.good s) (i : Nat) (g : Sig)
+    (hg : s.sigs[i]? = some g) (hc : g.claimed = true)
+    (l : Label) (hl : ownLabel i l = false) (s1 : State) (r : Res) (hr : r ≠ .spin)
+    (e1 : step Variant.good s l = some (s1, r))
+    (s2 : State) (r2 : Res) (e2 : step Variant.good s1 (.finalize i) = some (s2, r2)) :
+    r2 = .unit ∧ ∃ s' s2', step Variant.good s (.finalize i) = some (s', .unit) ∧
+      step Variant.good s' l = some (s2', r) ∧ EqW s2' s2 :=
+  finalize_left_mover s h i g hg hc l hl s1 r hr e1 s2 r2 e2
+
+/-- **C03 (reduction to atomic hand-offs).** Any sequence of other calls' steps that runs inside a hand-off
+    window, followed by the final store, gives the same results and the same final state (up to the order of the
+    wake log) as the final store followed by those steps: the execution is equivalent to one in which the
+    critical section and its final store are adjacent, i.e. to an execution of a channel whose hand-off is one
+    atomic step.  Applied window by window (the waiter's own steps are disabled or no-ops while it is claimed,
+    `c03_claimed_invisible`), every execution of the model is equivalent to one without hand-off windows. -/
+theorem c03_reduction (s : State) (h : Reach Variant.good s) (i : Nat) (g : Sig)
+    (hg : s.sigs[i]? = some g) (hc : g.claimed = true)
+    (ls : List Label) (hls : ∀ l ∈ ls, ownLabel i l = false) (t : State) (rs : List Res) (hrs : ∀ r ∈ rs, r ≠ .spin)
+    (e : run Variant.good s (ls ++ [.finalize i]) = some (t, rs ++ [.unit])) (hlen : rs.length = ls.length) :
+    ∃ t', run Variant.good s (.finalize i :: ls) = some (t', .unit :: rs) ∧ EqW t' t :=
+  finalize_moves_left s h i g hg hc ls hls t rs hrs e hlen
+
+/-- Non-vacuity of the reduction: a window (receiver 0 claimed by a `try_send`) in which two other calls run
+    (`len`, a `try_recv` that finds nothing) before the final store. -/
+example : ∃ s rs0 g, run Variant.good (State.init (some 0)) [.newRecvFut false, .pollRecv 0 0, .trySend 7 false false] = some (s, rs0) ∧
+    s.sigs[0]? = some g ∧ g.claimed = true ∧
+    (∀ l ∈ [Label.len, Label.tryRecv false], ownLabel 0 l = false) ∧
+    (run Variant.good s ([.len, .tryRecv false] ++ [.finalize 0])).map (·.2) = some ([.num 0, .none] ++ [.unit]) := by
+  refine ⟨_, _, _, rfl, rfl, ?_, ?_, ?_⟩ <;> decide
+
 /-- The source takes the lock exactly once per critical section (extracted on this run). -/
 theorem c03_this_tree : Generated.lock_counts = [1, 2, 2, 1, 1, 1, 1, 2, 1, 2, 1, 1, 1, 2] ∧
     Generated.reacquire_after_release_sites = 0 ∧ Generated.close_single_guard = 1 ∧
-    Generated.drain_lock_acquisitions = 1 ∧ Generated.drain_never_releases_lock = true := by
-  have := Tie.lock_counts_ok; have := Tie.drain_ok; simp_all
+    Generated.drain_lock_acquisitions = 1 ∧ Generated.drain_never_releases_lock = true ∧
+    Generated.api_lock_totals.all (· == 1) = true ∧ Generated.api_lock_totals_timed = [2, 2, 2] := by
+  have h1 := Tie.lock_counts_ok; have h2 := Tie.drain_ok; have h3 := Tie.single_section_ok
+  exact ⟨h1.1, h1.2.2.2.1, h1.2.2.2.2, h2.2.2.2.1, h2.2.2.2.2, h3.1, h3.2.2⟩
 
 /-- Non-vacuity: a state inside a hand-off window (receiver claimed, final store pending) that a third
     party observes consistently: `len` is 0, the sender's value is already accounted to the receiver's slot. -/
@@ -120,4 +160,6 @@ end Kanal.C03
 #print axioms Kanal.C03.c03_step_function
 #print axioms Kanal.C03.c03_finalize_local
 #print axioms Kanal.C03.c03_claimed_invisible
+#print axioms Kanal.C03.c03_final_store_moves_left
+#print axioms Kanal.C03.c03_reduction
 #print axioms Kanal.C03.c03_this_tree
